@@ -86,8 +86,11 @@ Fixpoint pop_ty (full : ty) (t : ty) (vs : list tval) {struct t} : outcome (val 
       match vs with
       | [] => Panic 2
       | v :: rest =>
-          if soft_is_nil v then Ok (zero full, rest, false)
-          else (x <- set_into full v ;; Ok (x, rest, true))
+          a <- assign_or_convert v full ;;
+          match a with
+          | None => Err 2
+          | Some v' => if soft_is_nil v' then Ok (zero full, rest, false) else Ok (snd v', rest, true)
+          end
       end
   end
 with pop_fields (fs : fields) (vs : list tval) {struct fs} : outcome (list val * list tval * bool) :=
@@ -99,9 +102,11 @@ with pop_fields (fs : fields) (vs : list tval) {struct fs} : outcome (list val *
             else match vs with
                  | [] => Panic 2
                  | v :: rest =>
-                     if negb (assignable (fst v) t) then Err 2
-                     else if soft_is_nil v then Ok (zero t, rest, false)
-                     else Ok (snd v, rest, true)
+                     c <- assign_or_convert v t ;;
+                     match c with
+                     | None => Err 2
+                     | Some v' => if soft_is_nil v' then Ok (zero t, rest, false) else Ok (snd v', rest, true)
+                     end
                  end) ;;
       let '(x, vs', any1) := a in
       b <- pop_fields r vs' ;;
